@@ -1,8 +1,11 @@
 open Model
 open Util
 
-(* DEFLATE oracle table of a case: lvl:block:cdata,...  ("-" = empty).  The section variables
-   [deflate] / [inflate] of the model are instantiated by look-ups in this table. *)
+(* DEFLATE oracle table of a case: lvl:block:cdata,...  ("-" = empty), levels 1..9 only.  The
+   section variable [deflate] of the writer model is instantiated by a look-up in this table for
+   levels >= 1 and by the model's own [deflate_stored] for level 0 (requested level 0 and the
+   fallback of encode); [inflate] of the reader model is the model's own RFC 1951 inflater
+   NV.Bgzf.Inflate.inflate -- no table. *)
 exception Oracle_miss
 
 let parse_table s =
@@ -12,14 +15,10 @@ let parse_table s =
     | _ -> failwith "table") (split_on ',' s)
 
 let deflate_of table = fun lvl x ->
+  if lvl = N0 then deflate_stored x else
   match List.find_opt (fun (l, b, _) -> l = lvl && b = x) table with
   | Some (_, _, c) -> c
   | None -> raise Oracle_miss
-
-let inflate_of table = fun c n ->
-  match List.find_opt (fun (_, b, c') -> c' = c && n_of_int (List.length b) = n) table with
-  | Some (_, b, _) -> Some b
-  | None -> None
 
 let fmt_err = function
   | InvalidInput -> "InvalidInput" | InvalidData -> "InvalidData"
@@ -60,8 +59,6 @@ let handle kind a =
   | "wr" ->
       let lvl = n_of_int (int_of_string a.(0)) in
       let table = parse_table a.(2) in
-      (* the reader must also inflate the EOF block's CDATA *)
-      let rtable = (N0, [], [n_of_int 3; N0]) :: table in
       let ops = Array.to_list (Array.map parse_op (Array.sub a 3 (Array.length a - 3))) in
       (try
         let o = run_script (deflate_of table) lvl ops (parse_ending a.(1)) in
@@ -71,8 +68,15 @@ let handle kind a =
               ^ hex_of_bytes o.o_sink ^ "|" ^ fmt_read rd)
       with Oracle_miss -> Some "deflate-oracle-miss")
   | "rd" | "rdbig" ->
-      let table = parse_table a.(0) in
       Some (fmt_read (reader_read_to_end inflate (bytes_of_hex a.(1))))
+  | "st" ->
+      (* the concrete level-0 compressor on an arbitrary-length input *)
+      Some (hex_of_bytes (deflate_stored (bytes_of_hex a.(0))))
+  | "inf" ->
+      (* the inflater alone: cdata, limit *)
+      (match inflate_raw (n_of_int (int_of_string a.(1))) (bytes_of_hex a.(0)) with
+       | Some (out, rest) -> Some ("Ok:" ^ hex_of_bytes out ^ ":" ^ string_of_int (List.length rest))
+       | None -> Some "Err")
   | _ -> None
 
 let () = run_driver handle
